@@ -10,13 +10,13 @@ cd $wt || exit 3
 git checkout -q -- . ; git clean -fdq
 echo 'replace github.com/libp2p/go-libp2p-quic-transport => /tmp/quicstub' >> go.mod
 cp $out/demo_test.go $target
-go test $pkg -run "$run" -count=1 -timeout $to > /tmp/seeded_demo.without 2>&1; r0=$?
+go test $pkg -run "$run" -count=1 -timeout $to > /tmp/seeded_demo.$id.$k.without 2>&1; r0=$?
 git apply $out/patch.diff || { echo "PATCH DOES NOT APPLY"; git checkout -q -- .; git clean -fdq; exit 3; }
-go build ./... > /tmp/seeded_demo.build 2>&1 || { echo "DOES NOT BUILD"; tail -5 /tmp/seeded_demo.build; }
-go test $pkg -run "$run" -count=1 -timeout $to > /tmp/seeded_demo.with 2>&1; r1=$?
+go build ./... > /tmp/seeded_demo.$id.$k.build 2>&1 || { echo "DOES NOT BUILD"; tail -5 /tmp/seeded_demo.$id.$k.build; }
+go test $pkg -run "$run" -count=1 -timeout $to > /tmp/seeded_demo.$id.$k.with 2>&1; r1=$?
 echo "without patch rc=$r0 ; with patch rc=$r1"
-[ $r0 -ne 0 ] && tail -15 /tmp/seeded_demo.without
-[ $r1 -eq 0 ] && tail -5 /tmp/seeded_demo.with
-grep -E "^\s+\S+_test.go:[0-9]+:" /tmp/seeded_demo.with | head -4 | cut -c1-300
+[ $r0 -ne 0 ] && tail -15 /tmp/seeded_demo.$id.$k.without
+[ $r1 -eq 0 ] && tail -5 /tmp/seeded_demo.$id.$k.with
+grep -E "^\s+\S+_test.go:[0-9]+:" /tmp/seeded_demo.$id.$k.with | head -4 | cut -c1-300
 git checkout -q -- . ; git clean -fdq
 rm -f ipfs-cluster-ctl ipfs-cluster-service ipfs-cluster-follow
